@@ -3,7 +3,7 @@ from reg._common import COMMON_ASSUME
 
 ENTRY = {
     'extractors': ['translate_py.py', 'translate_f90.py'],
-    'lean_files': ['Tables/SrcPyNewton.lean', 'Tables/SrcF90Pipeline.lean', 'Tables/SrcPyKernels.lean', 'Tables/SrcF90Kernels.lean', 'Props/C11.lean', 'Props/C11Triangle.lean', 'Props/C11Rounding.lean'],
+    'lean_files': ['Tables/SrcF90Triangle.lean', 'Tables/SrcPyTriangle.lean', 'Tables/SrcPyNewton.lean', 'Tables/SrcF90Pipeline.lean', 'Tables/SrcPyKernels.lean', 'Tables/SrcF90Kernels.lean', 'Props/C11.lean', 'Props/C11Triangle.lean', 'Props/C11Rounding.lean'],
     'lemma_files': ['Lemmas/RoundingDeriv.lean', 'Lemmas/RoundingMore.lean', 'Lemmas/Rounding.lean', 'Lemmas/TriRounding.lean', 'Lemmas/TriDeriv.lean', 'Model/TriDeriv.lean', 'Model/Triangle.lean', 'Lemmas/Deriv.lean', 'Lemmas/Shift.lean', 'Lemmas/Bridge.lean', 'Lemmas/VS.lean', 'Lemmas/Elevate.lean',
                     'Lemmas/Subdivide.lean', 'Model/Basic.lean', 'Model/Curve.lean'],
     'script': 'props/c11.py',
@@ -11,7 +11,11 @@ ENTRY = {
             'dims 1..4; curvature against (B\' x B\'\')/|B\'|^3 from exact power-basis derivatives; Newton steps (curve, curve-curve, '
             'triangle) against the exact solution of the linearised system, singular Jacobian must raise, exact hit is a no-op; '
             'triangles degree 1..10: Jacobian nets on all unit nets, Jacobian determinant by polarisation on pairs of unit nets at '
-            'dyadic points (exact) and binary64 nets; distinct by hash of exact inputs',
+            'dyadic points (exact) and binary64 nets; distinct by hash of exact inputs; history independence: the ordinary Newton steps '
+            '(curve, curve-curve, triangle) and curvatures are judged again right after unjudged calls at degenerate-but-valid inputs '
+            '(B\'(s) = 0 exactly - cusps of degree 2..6(10), repeated end points, unit nets, point curves, underflow -, also reached through '
+            'locate_point / Curve.locate; singular Jacobians; exact hits; zero tangent), the replay case carries the earlier calls; '
+            'Newton steps near a critical point (s* +- 2^-k)',
     'partial': [
                 'proved for every degree (Props/C11Triangle): the running indices of jacobian_s / jacobian_t, jacobian nets = formal partial derivatives (pderiv in MvPolynomial (Fin 2) K) of the surface polynomial, jacobian_det = x_s y_t - x_t y_s of those derivatives, the triangle Newton step solves the linearised 2x2 system uniquely when det != 0 (both code branches) and is a no-op on a zero residual; curves: hodograph = derivative for every degree, curvature formula, Newton steps (Props/C11)',
                 'rounding theorems (Props/C11Rounding, standard model): hodograph exponent 3n+1 (3n+2 for lines), curvature numerator 3n+3 and <T,T> 3, Jacobian nets 2 per entry, jacobian_det 8d+6 (6 for d = 1) with scale X_s Y_t + Y_s X_t; the script comparators 2(3n+6), 4(3n+12), 4, 8(3d+6) exceed them where the scales coincide; NOT implied: the curvature tolerance uses exact second differences as scale (rigorous scale |D_{j+1}|+|D_j|), sqrt and the division by |T|^3 are not modelled, and the Cartesian scale uses |1-s|+|t| for lambda_1; the singular-Jacobian ValueError is compared on exact data only',
